@@ -68,7 +68,7 @@ fn gen_op(cx: &mut Cx, k: u64, h: &Arc<Honest>) -> Op {
         }
         4 => {
             // Sign
-            let l = match cx.ch.weighted("sign_L", &[8, 1, if big { 1 } else { 0 }]) { 0 => cx.ch.choose("sign_l", 8) as usize, 1 => pick_len(cx, "sign_lb", &[255, 256, 257, 128, 129, 64, 65, 32, 33, 258]), _ => 1000 };
+            let l = match cx.ch.weighted("sign_L", &[8, 1, if big { 1 } else { 0 }]) { 0 => cx.ch.choose("sign_l", 8) as usize, 1 => pick_len(cx, "sign_lb", &[255, 256, 257, 128, 129, 64, 65, 32, 33, 258, 1024, 1025, 2047, 2048, 2049, 4097]), _ => 1000 };
             let long_msg = if l > 0 && cx.ch.chance("sign_long_message", 1, 5) { Some((cx.ch.choose("sign_long_at", 2) as usize * (l - 1), pick_len(cx, "sign_long_len", &[1024, 4096, 4097, 10000]))) } else { None };
             let msgs: Vec<Bytes> = (0..l).map(|i| bytes_for(seed, b"c10-sm", k * 10000 + i as u64, match long_msg { Some((at, n)) if at == i => n, _ => 1 + i % 17 })).collect();
             let header: Opt = match cx.ch.choose("sign_hdr", 6) { 0 => None, 1 => Some(vec![]), 2 => Some(bytes_for(seed, b"c10-h", k, 16)), 3 => Some(bytes_for(seed, b"c10-h", k, 255)), 4 => Some(bytes_for(seed, b"c10-h", k, 256)), _ => Some(bytes_for(seed, b"c10-h", k, if big && cx.ch.chance("sign_hdr_64k", 1, 3) { 65536 } else { pick_len(cx, "sign_hdr_len", &[300, 4096, 4097, 6000, 1023, 1024, 1025]) })) };
@@ -116,7 +116,7 @@ fn gen_decision_op(cx: &mut Cx, _k: u64, h: &Arc<Honest>) -> Op {
     let mut blind = h.blind.clone();
     let which = cx.ch.choose("verifier", 5);
     // one mutation (or none)
-    let mutation = cx.ch.choose("mutation", 14);
+    let mutation = cx.ch.choose("mutation", 15);
     let mut mlabel = "honest".to_string();
     {
         let target: &mut Bytes = match which { 0 => &mut sig, 1 => &mut proof, 2 => &mut cwp, 3 => &mut bsig, _ => &mut bproof };
@@ -133,6 +133,8 @@ fn gen_decision_op(cx: &mut Cx, _k: u64, h: &Arc<Honest>) -> Op {
             9 => { s = s0.other(); mlabel = "other-suite".into(); }
             10 => { let bit = cx.ch.choose("pkbit", 768) as usize; flip(&mut pk, bit); mlabel = format!("pk-bitflip@{bit}"); }
             11 => { l = l + 1; if let Some(b) = blind.last_mut() { *b ^= 1; } mlabel = "L+1 / blind-factor altered".into(); }
+            // the same key in its 192-octet coordinate form: octets_to_pubkey of the draft knows the 96-octet form only
+            14 => { if let Ok((x, y)) = api::pk_to_coordinates(&pk) { pk = [x, y].concat(); mlabel = "pk-in-uncompressed-form".into(); } }
             _ => {
                 // one scalar slot re-encoded as x + r (same residue, non-canonical octets) or set to r
                 const R_BE: [u8; 32] = [0x73, 0xed, 0xa7, 0x53, 0x29, 0x9d, 0x7d, 0x48, 0x33, 0x39, 0xd8, 0x08, 0x09, 0xa1, 0xd8, 0x05, 0x53, 0xbd, 0xa4, 0x02, 0xff, 0xfe, 0x5b, 0xfe, 0xff, 0xff, 0xff, 0xff, 0x00, 0x00, 0x00, 0x01];
